@@ -34,6 +34,7 @@ def ctor(spec, fields=()):
 
     def handler(ex, st, node, args, kwargs):
         o = st.alloc(T_OBJ, "inst")
+        st.assume(ISINST(o, clsref(spec.addr.split("::")[1].split(".")[0])))  # an instance of the class that was called
         for f in list(getattr(spec, "FIELDS", [])) + ["check_on"]:
             st.put("has:" + f, o, z3.BoolVal(False))  # a fresh instance has no attributes yet
         out = []
